@@ -416,6 +416,46 @@ def main(argv):
         for r in undecided:
             print("UNDECIDED:", r)
         return finish(2)
+    # ---- 2b. bounded stand-ins for the parts of the property that are listed under not_covered -------------
+    # (`standins` in vx/props.py).  They run on EVERY check, are labelled bounded in the evidence and never count as
+    # obligations.  A replayable disagreement between the real code and the property is a VIOLATION (bounded);
+    # a hit inside a class recorded as `open:` in known_findings.txt is printed as KNOWN-FINDING.
+    if cfg.get("standins") and not violations:
+        ok, err = build_replay_crate()
+        rep = []
+        if not ok:
+            undecided.append("replay crate does not build against this tree (bounded stand-ins not run): " + err[-300:])
+        else:
+            known = load_known()
+            for twin, what in cfg["standins"]:
+                try:
+                    pr = subprocess.run([REPLAY_BIN, "search", twin, "--seed", str(seed)], capture_output=True, text=True, timeout=600)
+                    v = json.loads(pr.stdout.strip().split("\n")[-1])
+                except Exception as e:
+                    undecided.append("bounded stand-in %s did not run: %s" % (twin, e))
+                    continue
+                entry = {"twin": twin, "bounded": True, "what": what, "found": bool(v.get("found")),
+                         "evaluations": v.get("evaluations"), "with_expectation": v.get("with_expectation")}
+                for k in v.get("known", []) or []:
+                    cls = k.get("known_class")
+                    kf = [x for x in known if x.get("property") == prop and x.get("class") == cls]
+                    if kf:
+                        if cls not in known_hits:
+                            known_hits.append(cls)
+                            print("KNOWN-FINDING: property=%s %s" % (prop, re.sub(r"^property=\S+\s*", "", kf[0]["line"][5:].strip())))
+                    else:
+                        # a class the findings file does not list is an ordinary disagreement
+                        v = dict(k, found=True)
+                if v.get("found"):
+                    rp = os.path.join(REPLAYS, "%s-standin-%s.json" % (prop, twin.replace(".", "_")))
+                    rec = {"property": prop, "decided_by": "BOUNDED stand-in (part of the property that is not under contract)", "bounded": True,
+                           "obligation": ["end-to-end twin written from the property statement disagrees with the real code"],
+                           "twin": twin, "what": what, "input": v.get("input"), "observed": v.get("observed"), "expected": v.get("expected"),
+                           "replay_cmd": "./check %s --replay %s" % (prop, rp)}
+                    json.dump(rec, open(rp, "w"), indent=1)
+                    violations.append((twin + " (bounded stand-in)", rp, True))
+                rep.append(entry)
+        cov["bounded_standins"] = rep
     cov["known_findings_hit"] = known_hits
 
     # ---- 3. thorough tier: assumption checks (never counted as obligations) ----------------------
